@@ -17,6 +17,7 @@ import OnlVerif.Net.RROnKReplay
 import OnlVerif.Net.WRROnKReplay
 import OnlVerif.Net.DRROnKReplay
 import OnlVerif.Tcp.SenderOnKReplay
+import OnlVerif.Net.NetworkReplay
 /-! Line-protocol driver: `driver <mode>` reads cases on stdin and prints the model's observations. -/
 
 def main (args : List String) : IO UInt32 := do
@@ -42,4 +43,5 @@ def main (args : List String) : IO UInt32 := do
   | ["wrrk"] => wrrkLoop stdin; return 0
   | ["drrk"] => drrkLoop stdin; return 0
   | ["sndk"] => sndkLoop stdin; return 0
+  | ["net"] => netLoop stdin; return 0
   | _ => IO.eprintln "usage: driver <kernel|fifo|gensink|timer|rt|…>"; return 2
